@@ -216,9 +216,11 @@ def run(ctx):
     probe = probes["too_many"]
     bad = dict(probe["out"], accept=True, reject=False)
     rejected += bool(compare(env, {"case": probe["case"], "out": bad}))
-    if rejected != 3:
+    # when the code under test already diverges from the definition the probe cases may themselves be failing ones;
+    # the self-test is then not meaningful and must not mask the violation with a machinery failure
+    if rejected != 3 and not by_signature:
         raise tlc.MachineryError("binding self-test failed: %d of 3 corrupted expectations detected" % rejected)
-    ctx.note("binding_selftest", {"corrupted_rejected": rejected})
+    ctx.note("binding_selftest", {"corrupted_rejected": rejected, "meaningful": not by_signature})
     ctx.assumptions += ["column types int/text, one or two values per column; value encodings belong to Codec.tla",
                         "rejection = ValueError or KeyError raised by bind()",
                         "before v4 a short positional list that covers the partition key may be rejected or kept short (statement silent)",
